@@ -40,6 +40,14 @@ Laws == /\ \A p \in All, a \in Q :
                                   /\ \A pr \in PP : GCZ(pr[1], pr[2], Mul(p, q)) = Mul(GCZ(pr[1], pr[2], p), GCZ(pr[1], pr[2], q))
               /\ (~Commute(p, q)) <=> (Mul(p, q) = NotHermitian)
         /\ \A p \in All : Mul(p, p) = Identity /\ Mul(p, Identity) = p
+        (* the six local classes: gate words realise the blocks; blocks are exactly the invertible 2x2 matrices *)
+        /\ \A p \in All, a \in Q, c \in 0..5 : Body(ApplySeq(LocWord(c, a), p)) = Loc(c, a, p)
+        /\ InvertibleBlocks = {b \in [1..4 -> 0..1] : (b[1] * b[4] + b[2] * b[3]) % 2 = 1}
+        (* S commutes with CZ: the classes {I,S}, {H,SH}, {HSH,HS} are the cosets used by the 3-coset reduction *)
+        /\ \A p \in All, pr \in PP : GCZ(pr[1], pr[2], GS(pr[1], p)) = GS(pr[1], GCZ(pr[1], pr[2], p))
+        /\ \A p \in All, a \in Q : /\ Loc(2, a, Loc(1, a, p)) = Loc(4, a, p)
+                                   /\ Loc(2, a, Loc(5, a, p)) = Loc(3, a, p)
+                                   /\ Loc(2, a, Loc(0, a, p)) = Loc(2, a, p)
         (* inverse circuit really inverts *)
         /\ \A p \in All, pr \in PP :
               LET gs == <<<<"h", pr[1], -1>>, <<"s", pr[2], -1>>, <<"cx", pr[1], pr[2]>>, <<"sdg", pr[1], -1>>,
